@@ -4,8 +4,8 @@ CONSTANTS
   Thresholds = {0, 50, 501, 100}
   NearPairs = {{50, 501}}
   GraphKinds = {"normal", "void"}
-  Variant = "code"
-  MaxCalls = 4
+  Variant = "truthy"
+  MaxCalls = 3
 INVARIANT HistoryFree
 INVARIANT CallerUntouched
 CHECK_DEADLOCK FALSE
